@@ -186,8 +186,47 @@ def _job(version):
     return results
 
 
+def big_file_case():
+    """scan_lexicons == load on a document of a few MiB whose <Lexicon> start tags lie across the 4 KiB, 64 KiB and
+    1 MiB offsets (padding is done with XML comments inside the preceding lexicon).  Returns a result row."""
+    from wn import lmf
+    work = tempfile.mkdtemp(prefix='wnbig')
+    try:
+        head = ('<?xml version="1.0" encoding="UTF-8"?>\n<!DOCTYPE LexicalResource SYSTEM '
+                '"http://globalwordnet.github.io/schemas/WN-LMF-1.0.dtd">\n<LexicalResource '
+                'xmlns:dc="http://purl.org/dc/elements/1.1/">\n')
+        text = head
+        close = '</Lexicon>\n'
+        for k, boundary in enumerate((0, 4096, 65536, 1 << 20)):
+            tag = (f'<Lexicon id="big{k}" label="lexicon number {k}" language="en" email="e@x" license="l" '
+                   f'version="1.{k}">')
+            if boundary:
+                # pad (inside the previous lexicon) so that the start tag begins 20 bytes before the boundary
+                pad = boundary - 20 - len(text.encode()) - len(close) - len('<!---->\n')
+                text += '<!--' + 'x' * max(pad, 0) + '-->\n' + close
+                assert len(text.encode()) == boundary - 20, (len(text.encode()), boundary)
+            text += tag + f'\n<Synset id="big{k}-1" ili="" partOfSpeech="n"/>\n'
+        text += close + '</LexicalResource>\n'
+        path = os.path.join(work, 'big.xml')
+        open(path, 'w', encoding='utf-8').write(text)
+        problem = None
+        try:
+            res = lmf.load(path, progress_handler=None)
+        except Exception as exc:   # noqa: BLE001
+            return ('1.0', 'big', 'valid', 'big-file', f'HARNESS: generated document does not load: {exc}', None)
+        try:
+            scan = lmf.scan_lexicons(path)
+            if scan != _project(res):
+                problem = f'SCAN: scan_lexicons {[x["id"] for x in scan]} != load {[x["id"] for x in _project(res)]}'
+        except Exception as exc:   # noqa: BLE001
+            problem = f'SCAN: scan_lexicons raises on a valid document: {type(exc).__name__}: {exc}'
+        return ('1.0', 'big', 'valid', 'big-file', problem, None)
+    finally:
+        shutil.rmtree(work, ignore_errors=True)
+
+
 def sweep():
-    out = []
+    out = [big_file_case()]
     with ProcessPoolExecutor(4) as ex:
         for r in ex.map(_job, VERSIONS):
             out += r
